@@ -1,7 +1,9 @@
 From Coq Require Import List NArith.
-From Tink Require Import XBase ProtoWire SerialTables Serial.
+From Tink Require Import XBase ProtoWire SerialTables Serial JsonKeyset JsonKeysetC12.
 Require Import ExtrOcamlBasic.
 Extraction "m.ml" xb_add xb_mul xb_div_eucl
   encode decode new_key_serialization ktype_of parse_key serialize_key parse_params serialize_params
   public_of dser dpar dpub handle_from_proto write_cleartext read_cleartext write_encrypted read_encrypted public_handle
-  keyset_schema.
+  keyset_schema
+  canon_keyset_bytes canon_encrypted_bytes keyset_of_json_text json_text_of_keyset encrypted_of_json_text json_text_of_encrypted
+  write_cleartext_json read_cleartext_json.
